@@ -411,7 +411,11 @@ def w_scale_tcoords(ctx, rng, i):
     elif mode == 1:
         f = rng.uniform(0.2, 5, d) * rng.choice([-1, 1], d)
         f[1] = f[0] * rng.choice([1.5, 0.5, -1.0])
-        mt.Scale(f)
+        if d == 3 and rng.random() < 0.6:
+            # two equal factors and one different one, in every position
+            a_, b_ = f[0], f[0] * rng.choice([1.5, 0.5, -1.0, 1.0 + 1e-6])
+            f = np.array([[a_, a_, b_], [a_, b_, a_], [b_, a_, a_]][rng.integers(0, 3)])
+        mt.Scale(f if rng.random() < 0.5 else list(f))
     elif mode == 2:
         f = rng.uniform(0.2, 5, d)
         f[rng.integers(0, d)] = 0.0
@@ -434,6 +438,19 @@ def w_scale_tcoords(ctx, rng, i):
         e = max(tx.maxdiff(b.apply(a.apply(x)), x), tx.maxdiff(a.apply(b.apply(x * 10)), x * 10))
         if e > 1e-9 * max(shp):
             ctx.fail("texture_coordinate_transforms_are_not_mutual_inverses", cls="tcoords", err=e)
+        corners_t = np.array([[0, 0], [1, 0], [0, 1], [1, 1.0]])
+        corners_i = np.array([[shp[0] - 1, 0], [shp[0] - 1, shp[1] - 1], [0, 0], [0, shp[1] - 1]], dtype=float)
+        if tx.maxdiff(a.apply(corners_t), corners_i) > 1e-9 * max(shp) or tx.maxdiff(b.apply(corners_i), corners_t) > 1e-9:
+            ctx.fail("texture_coordinate_transform_maps_corners_wrongly", cls="tcoords", mech="first_request")
+        # history: the caller changes the transforms it was handed (they are the caller's own objects); a later request for the
+        # same image shape - spelled as a tuple, a list or an array - is not affected
+        a.compose_before_inplace(mt.Translation(rng.uniform(0.5, 3, 2)))
+        b.compose_after_inplace(mt.UniformScale(float(rng.uniform(1.5, 3)), 2))
+        shp2 = [tuple(shp), list(shp), np.array(shp)][rng.integers(0, 3)]
+        a2, b2 = mt.tcoords_to_image_coords(shp2), mt.image_coords_to_tcoords(shp2)
+        ctx.tap("tcoords_requested_again", "calls"); ctx.tap("tcoords_requested_again", "checked")
+        if tx.maxdiff(a2.apply(corners_t), corners_i) > 1e-9 * max(shp) or tx.maxdiff(b2.apply(corners_i), corners_t) > 1e-9:
+            ctx.fail("texture_coordinate_transform_maps_corners_wrongly", cls="tcoords", mech="requested_again_after_the_caller_changed_an_earlier_result")
         # internal use: textured meshes scale their texture coordinates with the same transform
         tex = Image(rng.random((1,) + shp))
         m = ms.TexturedTriMesh(rng.random((4, 3)), np.array([[0, 0], [1, 0], [0, 1], [1, 1.0]]), tex, trilist=np.array([[0, 1, 2], [1, 2, 3]]))
